@@ -147,6 +147,8 @@ func DirectiveEntries() map[string]Entry {
 		"commodity-fmt":           {Kind: EntryCommodityFmt, Sym: "EUR", Format: "1.000,00 EUR"},
 		"include":                 {Kind: EntryInclude, Path: "sub/other.journal"},
 		"include-glob":            {Kind: EntryInclude, Path: "sub/*.journal"},
+		"include-trailing-blanks": {Kind: EntryInclude, Path: "sub/other.journal", Trail: "  "},
+		"include-comment":         {Kind: EntryInclude, Path: "sub/other.journal", Comment: &Comment{Text: " the rest"}},
 		"price":                   {Kind: EntryPrice, PDate: Date{2001, 1, 3, "-", true, false}, Sym: "EUR", Price: Amount{Num: Num("1.10", "11/10"), Sym: "$", Side: SideLeft}},
 		"price-right":             {Kind: EntryPrice, PDate: Date{2001, 1, 3, "/", true, false}, Sym: "$", Price: Amount{Num: Num("0,90", "9/10"), Sym: "EUR", Side: SideRight, Gap: 1}},
 		"year":                    {Kind: EntryYear, Year: 2001, YearKeyword: "Y"},
